@@ -440,6 +440,31 @@ def unlink (fs : FS) (f : String) (p : Path) : Except Outcome FS :=
 
 /-! ### create -/
 
+/-- the root data groups `create` deletes and writes again (`del f[name]`, `create_group(name)`) -/
+def rootParts (es : Entries) (o c : Nat) : Entries :=
+  (payloadParts o c).foldl (fun es part => putRegion es [part.1] part.2) es
+
+/-- `create` at the root group of the open file `h`: `del f[name]` for the four data groups only,
+then the groups are written again and `attrs.update(info)` — other children and other attributes
+of the root stay -/
+def createRoot (fs1 : FS) (f : String) (h : H5File) (c : Nat) : FS × Outcome :=
+  match lookupK h.entries [] with
+  | some (.group o a) =>
+    if sharedOid h.entries o then (fs1, .corner "root group is multiply linked") else
+    (setFile fs1 f ⟨setEntry (rootParts h.entries h.next c) [] (.group o (attrsUpdate a (infoAttrs c))), h.next + 5⟩, .ok)
+  | _ => (fs1, .corner "file without root group")
+
+/-- `create` at a group path `p = parent/x`: `create_group(path)`; on ValueError (the name exists)
+`del f[path]` and `create_group` again — whatever was linked there (a group with everything below
+it, a soft link) is gone -/
+def createAt (fs1 : FS) (f : String) (h : H5File) (p : Path) (x : String) (c : Nat) : FS × Outcome :=
+  match mkdirP fs1 f h [] p.dropLast with
+  | .error o => (fs1, o)
+  | .ok (h1, P) =>
+    if sharedAt h1.entries P then (fs1, .corner "collection created inside a multiply linked group")
+    else
+      (setFile fs1 f ⟨putRegion h1.entries (P ++ [x]) (coolerRegion h1.next c), h1.next + 5⟩, .ok)
+
 /-- `create(uri, …, mode=…)` for a valid one-pixel cooler with content id `c` -/
 def createCooler (fs : FS) (f : String) (p : Path) (mode : Mode) (c : Nat) : FS × Outcome :=
   match openFile fs f mode with
@@ -449,23 +474,8 @@ def createCooler (fs : FS) (f : String) (p : Path) (mode : Mode) (c : Nat) : FS 
     | none => (fs1, .corner "unreachable")
     | some h =>
       match p.getLast? with
-      | none =>
-        -- root: `del f[name]` for the four data groups only, then re-create them; attrs.update
-        match lookupK h.entries [] with
-        | some (.group o a) =>
-          if sharedOid h.entries o then (fs1, .corner "root group is multiply linked") else
-          let es := (payloadParts h.next c).foldl (fun es part => putRegion es [part.1] part.2) h.entries
-          let es := setEntry es [] (.group o (attrsUpdate a (infoAttrs c)))
-          (setFile fs1 f ⟨es, h.next + 5⟩, .ok)
-        | _ => (fs1, .corner "file without root group")
-      | some x =>
-        -- `create_group(path)`; on ValueError (name exists) `del f[path]` and create again
-        match mkdirP fs1 f h [] p.dropLast with
-        | .error o => (fs1, o)
-        | .ok (h1, P) =>
-          if sharedAt h1.entries P then (fs1, .corner "collection created inside a multiply linked group")
-          else
-            (setFile fs1 f ⟨putRegion h1.entries (P ++ [x]) (coolerRegion h1.next c), h1.next + 5⟩, .ok)
+      | none => createRoot fs1 f h c
+      | some x => createAt fs1 f h p x c
 
 /-! ### `_copy` -/
 
